@@ -1,6 +1,7 @@
 (** Command dispatcher of the executable model. *)
 From RP2V Require Import Base.Prelude Model.Entry Model.EntryL1.
 From RP2V Require Import Model.EntryJp.
+From RP2V Require Import Model.EntryFull.
 Open Scope Z_scope.
 
 Definition entry (cmd : Z) (args : list Z) : list Z :=
@@ -21,4 +22,7 @@ Definition entry (cmd : Z) (args : list Z) : list Z :=
   if cmd =? 42 then entry_config args else
   if cmd =? 43 then entry_options args else
   if cmd =? 45 then entry_num11 args else
+  if cmd =? 50 then entry_full args else
+  if cmd =? 51 then entry_full_msgids args else
+  if cmd =? 52 then entry_full_fixed args else
   [-999].
